@@ -90,11 +90,38 @@ func runC08(c *Ctx) {
 		return
 	}
 	var recv, bodyArg absint.Term
+	nFlagWord := 0
+	R.Rules["E6.flag-word"] = "each flag decoder of the base block is handed the word it details: AlarmSignDetails.parse receives the decoded AlarmSign, StatusSignDetails.parse the decoded StatusSign (E6.flag shows that each flag tests its own bit of the word it is given; this rule shows it is given the right word)"
 	res := c.RunE1([]*ssa.Function{base}, false, func(a *absint.Analyzer, fn *ssa.Function, st *absint.State, args []absint.Term) {
 		a.TrackObj(st, args[0], fn.Params[0].Type())
 		recv, bodyArg = args[0], args[1]
+		recvT := fn.Params[0].Type()
+		// each flag decoder is given the word it details: <X>Details.parse(…) receives the value of the item's field <X>
+		a.OnCall = func(a *absint.Analyzer, st *absint.State, site ssa.CallInstruction, callee *ssa.Function, cargs []absint.Term) {
+			if callee.Signature.Recv() == nil || len(cargs) != 2 {
+				return
+			}
+			tn, isN := derefNamed(callee.Signature.Recv().Type())
+			if !isN || !strings.HasSuffix(tn, "SignDetails") {
+				return
+			}
+			word := strings.TrimSuffix(tn, "Details")
+			fv, _ := a.LoadField(st, recv, recvT, word)
+			fi, okF := fv.(absint.Int)
+			ai, okA := cargs[1].(absint.Int)
+			ok := okF && okA && st.Entails(eqC(ai.L, fi.L))
+			d := ""
+			if !ok {
+				d = fmt.Sprintf("%s.%s is given %s, not the value of the item's field %s (%s): the flags are expanded from the wrong word", tn, callee.Name(), a.Render(cargs[1]), word, a.Render(fv))
+			}
+			nFlagWord++
+			a.Oblige("E6.flag-word", fn, site.(ssa.Instruction), tn, ok, d)
+		}
 	})
 	c.AddE1(res, false)
+	if nFlagWord < 2 {
+		R.Fatal("E6.flag-word: only %d flag-decoder calls seen in the base block decoder (confirmed by hand: alarm and status)", nFlagWord)
+	}
 	r := res[0]
 	locs := fieldLocs(r.A, recv.(*absint.Ptr))
 	lr := layoutResult{}
